@@ -21,7 +21,8 @@ pub struct FnCase {
     pub lower: i32,
     pub upper: i32,
     /// 0 on lower bound, 1 on upper bound, 2 shifted at lower, 3 shifted at upper, 4 inside, 5 anywhere,
-    /// 6 strictly inside the tick of the upper bound, 7 just below the lower bound, 8 strictly inside the tick of the lower bound
+    /// 6 strictly inside the tick of the upper bound, 7 just below the lower bound, 8 strictly inside the tick of the lower bound,
+    /// 9 / 10 inside the range a few price units (1 .. 2^40) from the upper / lower bound
     pub state: u8,
     #[serde(with = "crate::ser::u128s")]
     pub price_seed: u128,
@@ -65,7 +66,16 @@ pub fn resolve_state(c: &FnCase) -> Option<(i32, u128)> {
         let (a, b2) = (sqrt_price_from_tick_index(t), sqrt_price_from_tick_index((t + 1).min(MAX_TICK)));
         if b2 > a + 1 { a + 1 + c.price_seed % (b2 - a - 1) } else { a }
     };
-    let (tick, p) = match c.state % 9 {
+    // a price a few units (log-uniform distance 1 .. 2^40) inside the range next to a bound: one token's exact amount is a tiny fraction
+    let near = |from_upper: bool| -> (i32, u128) {
+        let bits = (c.price_seed % 41) as u32;
+        let d = 1 + ((c.price_seed >> 64) & ((1u128 << bits) - 1));
+        let p = if from_upper { pu.saturating_sub(d).max(pl) } else { pl.saturating_add(d).min(pu) };
+        (tick_index_from_sqrt_price(&p), p)
+    };
+    let (tick, p) = match c.state % 11 {
+        9 => near(true),
+        10 => near(false),
         6 => (hi, within(hi)),
         7 => (lo - 1, pl - 1),
         8 => (lo, within(lo)),
@@ -92,7 +102,7 @@ pub fn check_fn(c: &FnCase, l: &mut Local) -> Result<(), String> {
     let (lo, hi) = (c.lower, c.upper);
     let (pl, pu) = (sqrt_price_from_tick_index(lo), sqrt_price_from_tick_index(hi));
     let Some((tick, p)) = resolve_state(c) else { return Ok(()) };
-    let shifted = matches!(c.state % 9, 2 | 3);
+    let shifted = matches!(c.state % 11, 2 | 3);
     let liq = c.liquidity;
     let mut pos = Position::default();
     pos.tick_lower_index = lo;
@@ -183,7 +193,7 @@ fn fn_case() -> BoxedStrategy<FnCase> {
             let maxk = MAX_TICK / tsi;
             // liquidity: by magnitude, or the inverse image of a token amount on a boundary of the result type
             let target = prop_oneof![3 => Just(None), 1 => (any::<bool>(), 0usize..AMOUNT_TARGETS.len(), any::<u32>()).prop_map(Some)];
-            (Just(ts), -maxk..=maxk, prop_oneof![2 => 1i32..=200, 1 => 1i32..=(2 * maxk)], 0u8..9, any::<u128>(), gen::bits_u128(110), gen::bits_u64(64), gen::bits_u64(64), target)
+            (Just(ts), -maxk..=maxk, prop_oneof![2 => 1i32..=200, 1 => 1i32..=(2 * maxk)], 0u8..11, any::<u128>(), gen::bits_u128(110), gen::bits_u64(64), gen::bits_u64(64), target)
         })
         .prop_map(|(ts, lo_k, w, state, price_seed, liquidity, max_a, max_b, target)| {
             let tsi = ts as i32;
@@ -361,7 +371,7 @@ fn ix_case() -> BoxedStrategy<IxCase> {
 pub fn def() -> CheckDef {
     CheckDef {
         id: "C08",
-        rule: "function level: generated (tick spacing, usable lower<upper, state in {on lower bound, on upper bound, shifted at lower, shifted at upper, inside, anywhere}, \
+        rule: "function level: generated (tick spacing, usable lower<upper, state in {on lower bound, on upper bound, shifted at lower, shifted at upper, inside, anywhere, inside the range 1..2^40 price units from either bound}, \
                +-L of any magnitude up to 2^110 or (one in four) the exact inverse image of a token amount on a boundary of the u64 result type, token maxima of any magnitude) on BOTH implementations (Pinocchio through H1): amounts equal the price-based exact \
                amounts (A over [clamp(p),pu], B over [pl,clamp(p)]) rounded up for +L and down for -L, one-sidedness, round trip returns <= paid and loses <= 1 per \
                token, estimate == largest liquidity whose cost fits both maxima (bisection on BigUint).  Instruction level on states reached by generated \
